@@ -207,4 +207,6 @@ def replay(spec):
 
 
 def validate(spec):
+    if spec.get("kind") == "voronoi-contract":
+        return VOR.validate(spec)
     return {"ok": True, "skipped": True}
